@@ -89,16 +89,30 @@ def run(prog, chk, tier):
         if b is None:
             chk.fail("xor-constant", "Fingerprint::%s not found" % nm)
             continue
-        refs = [i for i in const_items(b) if i.endswith("Fingerprint::XOR_CONSTANT")]
-        xors = [s for _, _, s in b.iter_stmts() if s["k"] == "assign" and s["rv"]["k"] == "binop" and s["rv"]["op"] == "BitXor"]
-        ok = False
-        og = Origins(prog, b)
-        for s in xors:
-            sa, sb = repr(og.operand(s["rv"]["a"])), repr(og.operand(s["rv"]["b"]))
-            if ("0x5354554e" in sa) != ("0x5354554e" in sb):
-                ok = True
-        chk.ob("xor-constant", "Fingerprint::%s xors the value with XOR_CONSTANT" % nm, bool(refs) and len(xors) == 1 and ok,
-               detail="%d reference(s), %d xor(s)" % (len(refs), len(xors)), how="constant identity + dependence")
+        # the function together with the crate-local helpers it calls (the masking may live in a helper)
+        bodies = [b]
+        cg = prog.call_graph()
+        frontier = [key]
+        for _ in range(2):
+            nxt = []
+            for k_ in frontier:
+                for bi, t, tg, cb in cg.get(k_, []):
+                    for x in tg:
+                        if x[0] == "local" and x[1].startswith(("stun_types::attribute::fingerprint::", "<" + FP)) and prog.bodies.get(x[1]) not in bodies and x[1] in prog.bodies:
+                            bodies.append(prog.bodies[x[1]])
+                            nxt.append(x[1])
+            frontier = nxt
+        refs, xors = [], []
+        for bb_ in bodies:
+            refs += [i for i in const_items(bb_) if i.endswith("Fingerprint::XOR_CONSTANT")]
+            og = Origins(prog, bb_)
+            for _, _, s in bb_.iter_stmts():
+                if s["k"] == "assign" and s["rv"]["k"] == "binop" and s["rv"]["op"] == "BitXor":
+                    xors.append((repr(og.operand(s["rv"]["a"])), repr(og.operand(s["rv"]["b"]))))
+        # every xor site masks with the constant on exactly one side; one site per byte lane or one for the whole word
+        ok = bool(xors) and all(("5354554e" in sa.lower()) != ("5354554e" in sb.lower()) for sa, sb in xors) and len({x for x in xors}) == 1
+        chk.ob("xor-constant", "Fingerprint::%s xors the value with XOR_CONSTANT" % nm, bool(refs) and ok,
+               detail="%d reference(s), xor operands %r" % (len(refs), xors[:2]), how="constant identity + dependence, through crate-local helpers")
     # ---- (b) CRC algorithm: every crc::Crc<u32> constant of the crate (wherever it is declared)
     crcs = {k_: c_ for k_, c_ in prog.consts.items() if c_.get("ty_s") == "crc::Crc<u32>" and k_.startswith("stun_types::")}
     chk.ob("crc-algorithm", "the crate declares a Crc<u32> constant", len(crcs) >= 1, how="constant table")
